@@ -330,3 +330,6 @@ PyNode.native_gen = _py_native_gen
 
 # error-recovery flags of tree-sitter nodes (a tree with ERROR / MISSING nodes is still the parse tree)
 TSNode.attrs.update(has_error=Bool, is_error=Bool, is_missing=Bool)
+
+# (C02) ast.Dict.keys: the key expressions of a dict display (None for `**mapping` entries)
+PyNode.attrs["keys"] = SeqOf(PyNode)
